@@ -30,11 +30,18 @@ def args_from_path(apath, n, reverse):
         wps = wps[::-1]
     first, last = wps[0], wps[-1]
     vals = [first.x_positions[0], first.y_positions[0], last.x_positions[0], last.y_positions[0]]
-    return [int(v) for v in vals[:n]]
+    out = []
+    for v in vals[:n]:
+        try:
+            out.append(int(v))
+        except Exception:
+            out.append(f"not-a-number:{type(v).__name__}")     # e.g. a const-lattice placeholder baked into a folded path
+    return out
 
 
 # (name, decorator options, plain interpreter?, operands passed as kernel parameters?)
-ROUTES = [("fold (compile-time spec, constant operands)", "(arch_spec=S)", True, False),
+ROUTES = [("compile-time spec, operands partly constant and partly kernel parameters (must not be folded)", "(arch_spec=S)", True, "mixed"),
+          ("fold (compile-time spec, constant operands)", "(arch_spec=S)", True, False),
           ("recorded spec, plain interpreter (non-constant operands)", "(arch_spec=S)", True, True),
           ("run-time spec interpreter", "", False, False),
           ("run-time spec interpreter, non-constant operands, fold=False", "(fold=False)", False, True)]
@@ -73,12 +80,21 @@ def run(ctx):
                     vparts = [f"x{i}" for i in range(npos)] + [f"{names[i]}=x{i}" for i in order]
                     vexpr = f"{callee}({', '.join(vparts)})"
                     vparams = ", ".join(f"x{i}: float" for i in range(n))
+                    # even-numbered operands literal, odd-numbered ones kernel parameters
+                    mparts = [(f"{float(vals[i])}" if i % 2 == 0 else f"x{i}") for i in range(npos)] + \
+                             [f"{names[i]}=" + (f"{float(vals[i])}" if i % 2 == 0 else f"x{i}") for i in order]
+                    mexpr = f"{callee}({', '.join(mparts)})"
                     shipped = [vals[i] for i in range(npos)] + [vals[i] for i in order]
                     kw = [names[i] for i in order]
                     observed = {}
                     for rname, dec, plain, byparam in ROUTES:
                         try:
-                            if byparam:
+                            if byparam == "mixed":
+                                if n < 2:
+                                    continue
+                                m, (st, evs, extra), src = run_call(S, ns, n, mexpr, dec, plain, params=vparams,
+                                                                    args=tuple(float(v) for v in vals))
+                            elif byparam:
                                 m, (st, evs, extra), src = run_call(S, ns, n, vexpr, dec, plain, params=vparams,
                                                                     args=tuple(float(v) for v in vals))
                             else:
